@@ -174,16 +174,22 @@ def main():
         ms = json.load(open(os.path.join(OUT, "mutants.json")))
         extract.build_driver()
         extract.facts_for("default")
+        recs = []
         with Pool(a.jobs, initializer=_init, initargs=(counter,)) as pool:
-            recs = pool.map(_check, ms, chunksize=1)
+            for r in pool.imap_unordered(_check, ms, chunksize=1):
+                recs.append(r)
+                if len(recs) % 25 == 0:
+                    json.dump(recs, open(os.path.join(OUT, "checked.json"), "w"), indent=1)
         json.dump(recs, open(os.path.join(OUT, "checked.json"), "w"), indent=1)
         from collections import Counter
         print(Counter(r["status"] for r in recs))
     elif a.cmd == "suite":
         recs = [r for r in json.load(open(os.path.join(OUT, "checked.json"))) if r["status"] == "silent"]
+        out = []
         with Pool(a.jobs, initializer=_init, initargs=(counter,)) as pool:
-            out = pool.map(_suite, recs, chunksize=1)
-        json.dump(out, open(os.path.join(OUT, "suite.json"), "w"), indent=1)
+            for r in pool.imap_unordered(_suite, recs, chunksize=1):
+                out.append(r)
+                json.dump(out, open(os.path.join(OUT, "suite.json"), "w"), indent=1)
         from collections import Counter
         print(Counter(r["suite"] for r in out))
 
